@@ -6,7 +6,13 @@ document is extracted in two fresh processes with different hash seeds, in OPPOS
 with and without a path, twice in the same process; observers -- including reading the streams handed out by
 get_bytes() -- are interleaved with to_json(); the input buffer is compared before/after.
 
+The two processes of a run also differ in everything that is not an input of extraction: locale / default text encoding, time
+zone, terminal size, working directory, unrelated environment variables.  Differences recorded as known findings
+(known_findings.json, `mismatch` signature) are listed separately and never hide new ones.
+
 Targeted searches (chosen by the obligation's `replay_hint`):
+  frame   function-level (after the corpus run): instances of the result class found in corpus results and small perturbations
+          of them (ragged / empty / repeated list fields), the observer called twice, everything reachable compared;
   stream  function-level: the reader is called on one BytesIO at several cursor positions;
   state   function-level: a memoised function is called on a pool of near-colliding inputs after different histories;
   order   synthetic documents under three hash seeds;
@@ -23,7 +29,7 @@ import sys
 import zipfile
 import zlib
 
-SYNTH_DIR = "/tmp/c06_synth_v4"
+SYNTH_DIR = "/tmp/c06_synth_v5"
 
 WORKER = r'''
 import sys, io, json, glob, hashlib, logging, dataclasses, os
@@ -51,8 +57,23 @@ def streams(obj, seen, out, depth=0):
 def js(r):
     return json.dumps(r.to_json(), sort_keys=True, default=str)
 
+def same(buf, data):
+    """The caller still holds what it passed in: same content, still readable (a closed buffer has no content any more)."""
+    try:
+        return buf.getvalue() == data
+    except ValueError:
+        return False
+
+def listing(r):
+    """What the listings of a result return (texts of the units, sizes of the image / table listings)."""
+    return [[u.get_text() for u in r.iterate_units()], len(list(r.iterate_images())), len(list(r.iterate_tables()))]
+
 def observe(r):
-    r.get_full_text(); list(r.iterate_units()); imgs = list(r.iterate_images()); list(r.iterate_tables()); r.get_metadata()
+    r.get_full_text(); list(r.iterate_units()); imgs = list(r.iterate_images()); tabs = list(r.iterate_tables()); r.get_metadata()
+    for t in tabs:                       # a consumer looks at the tables it was handed
+        for name in ("get_table", "get_dim"):
+            if hasattr(t, name):
+                getattr(t, name)()
     for u in r.iterate_units():
         u.get_text(); u.get_images(); u.get_tables(); u.get_metadata()
     for im in imgs:                      # a consumer reads the picture it was handed
@@ -84,22 +105,30 @@ for f in files:
         buf = io.BytesIO(data)
         res = list(ex(buf, f))
         j1 = [js(r) for r in res]
-        rec = {"digest": hashlib.sha256("".join(j1).encode()).hexdigest(), "json": j1, "buffer_unchanged": buf.getvalue() == data,
-               "observer_stable": True, "repeat_stable": True}
+        rec = {"digest": hashlib.sha256("".join(j1).encode()).hexdigest(), "json": j1, "buffer_unchanged": same(buf, data),
+               "observer_stable": True, "repeat_stable": True, "history": []}
+        full = []
         for r in res:
             before = js(r)
             observe(r)
             after = js(r)
             if before != after:
                 rec["observer_stable"] = False
+            full.append(listing(r))
         # the same bytes again in this process, the caller's cursor somewhere else
         b2 = io.BytesIO(data)
         b2.seek(min(7, len(data)))
         res2 = list(ex(b2, f))
         if [js(r) for r in res2] != j1:
             rec["repeat_stable"] = False
-        if b2.getvalue() != data:
+        if not same(b2, data):
             rec["buffer_unchanged"] = False
+        # a consumer that only peeks at the first unit / image / table, then lists everything: same listing as on the first result
+        for r, want in zip(res2, full):
+            for meth in ("iterate_units", "iterate_images", "iterate_tables"):
+                next(iter(getattr(r, meth)()), None)
+            if listing(r) != want:
+                rec["history"].append("listing after a partially consumed iteration differs from a full first iteration")
         # without a path (in-memory download)
         try:
             b3 = io.BytesIO(data)
@@ -109,8 +138,13 @@ for f in files:
             rec["nopath_digest"] = hashlib.sha256("".join(j3).encode()).hexdigest()
             if [js(r) for r in ex(io.BytesIO(data), None)] != j3:
                 rec["repeat_stable"] = False
+            if any(json.dumps(os.path.basename(f))[1:-1] in j for j in j3):
+                rec["history"].append("an extraction without a path reports the path of an earlier extraction")
         except Exception as e:
             rec["nopath_error"] = type(e).__name__
+        # results handed out earlier must not change when the process extracts something else
+        if [js(r) for r in res] != j1:
+            rec["history"].append("to_json() of an earlier result changed after later extractions in the same process")
         out[name] = rec
     except Exception as e:
         out[name] = {"error": type(e).__name__}
@@ -174,6 +208,13 @@ def odt_with_styles(names, extra_body="", only_body=None):
         body += f'<text:p>inline picture {k}: {frame.format(k)} after it</text:p>'
         body += f'<text:p>linked picture {k}: <text:a xlink:href="https://example.org/{k}">{frame.format(10 + k)}</text:a> and a plain <text:a xlink:href="https://example.org/p{k}">link {k}</text:a></text:p>'
         body += (f'<text:p><draw:frame draw:name="box{k}"><draw:text-box><text:p>caption in a text box {k}</text:p></draw:text-box></draw:frame></text:p>')
+    # tables whose extracted rows are ragged: a cell spanning columns is followed by covered cells
+    cell = lambda t, span="": f'<table:table-cell{span}><text:p>{t}</text:p></table:table-cell>'
+    body += ('<text:h text:outline-level="1">Tables</text:h><table:table table:name="Ragged"><table:table-column table:number-columns-repeated="3"/>'
+             '<table:table-row>' + cell("wide", ' table:number-columns-spanned="3"') + '<table:covered-table-cell/><table:covered-table-cell/></table:table-row>'
+             '<table:table-row>' + cell("a") + cell("b") + cell("c") + '</table:table-row>'
+             '<table:table-row>' + cell("two", ' table:number-columns-spanned="2"') + '<table:covered-table-cell/>' + cell("z") + '</table:table-row></table:table>'
+             '<text:h text:outline-level="1">After the table</text:h><text:p>closing paragraph</text:p>')
     body += extra_body
     if only_body is not None:
         body = only_body
@@ -198,6 +239,11 @@ def docx_with_styles(names):
     ids = [f"S{i}" for i in range(len(names))]
     paras = "".join(f'<w:p><w:pPr><w:pStyle w:val="{i}"/></w:pPr><w:r><w:t>paragraph {k}</w:t></w:r></w:p>' for k, i in enumerate(ids))
     paras += "".join(f'<w:p><w:pPr><w:pStyle w:val="{esc(n)}"/></w:pPr><w:r><w:t>direct {k}</w:t></w:r></w:p>' for k, n in enumerate(names))
+    tc = lambda t, span=0: (f'<w:tc><w:tcPr>' + (f'<w:gridSpan w:val="{span}"/>' if span else '') + f'</w:tcPr><w:p><w:r><w:t>{t}</w:t></w:r></w:p></w:tc>')
+    paras += ('<w:p><w:pPr><w:pStyle w:val="Heading1"/></w:pPr><w:r><w:t>First heading</w:t></w:r></w:p><w:p><w:r><w:t>text one</w:t></w:r></w:p>'
+              '<w:tbl><w:tr>' + tc("wide", 3) + '</w:tr><w:tr>' + tc("a") + tc("b") + tc("c") + '</w:tr><w:tr>' + tc("two", 2) + tc("z") + '</w:tr></w:tbl>'
+              '<w:p><w:pPr><w:pStyle w:val="Heading1"/></w:pPr><w:r><w:t>Second heading</w:t></w:r></w:p><w:p><w:r><w:t>text two</w:t></w:r></w:p>'
+              '<w:p><w:pPr><w:pStyle w:val="Heading2"/></w:pPr><w:r><w:t>Third heading</w:t></w:r></w:p><w:p><w:r><w:t>text three</w:t></w:r></w:p>')
     # hyperlinks, several of them repeated (same text / same target)
     links = [("alpha", "https://example.org/a"), ("beta", "https://example.org/b"), ("gamma", "https://example.org/c"), ("alpha", "https://example.org/a"),
              ("delta", "https://example.org/d"), ("beta", "https://example.org/b"), ("epsilon", "https://example.org/a"), ("alpha", "https://example.org/z")]
@@ -306,6 +352,42 @@ def synth_corpus(repo):
            "c06_whitespace_only.odt": odt_with_styles(NAME_POOL[:2], only_body="<text:p> </text:p><text:p><text:s text:c=\"3\"/></text:p>"),
            "c06_no_body_text.odt": odt_with_styles(NAME_POOL[:2], only_body="")}
     res = os.path.join(repo, "sharepoint2text/tests/resources")
+    # optional parts absent: packages without meta.xml (several, so that what one leaves behind in the process meets another one)
+    for fixture in ("open_office/headings.odt", "open_office/sample_document.odt", "open_office/sample_spreadsheet.ods",
+                    "open_office/sample_presentation.odp", "open_office/drawing.odg"):
+        try:
+            raw = open(os.path.join(res, fixture), "rb").read()
+            out["c06_no_meta_" + os.path.basename(fixture)] = with_part(raw, "meta.xml", None)
+        except (OSError, KeyError, zipfile.BadZipFile):
+            pass
+    out["c06_no_meta_synthetic.odt"] = with_part(odt_with_styles(NAME_POOL[:4]), "meta.xml", None)
+    # degenerate plain texts (fallback branches: nothing to detect an encoding from)
+    out["c06_blank.txt"] = b"  \n\n \t\n"
+    out["c06_short.txt"] = b"hi\n"
+    out["c06_paragraphs.txt"] = b"first paragraph, long enough to take a while\n" * 40 + b"\n\nsecond\n\nthird paragraph\n" + b"x" * 3000 + b"\n\nlast\n"
+    # member names that differ only in case, referenced with yet another spelling (case-insensitive producers / file systems)
+    try:
+        raw = open(os.path.join(res, "modern_ms/pptx_formula_image.pptx"), "rb").read()
+        z = zipfile.ZipFile(io.BytesIO(raw))
+        rels_name = next(n for n in z.namelist() if n.startswith("ppt/slides/_rels/") and b"/media/" in z.read(n))
+        rels = z.read(rels_name).decode("utf-8")
+        import re as _re
+        target = _re.search(r'Target="(\.\./media/[^"]+)"', rels).group(1)
+        base = target.rsplit("/", 1)[1]
+        odd = "".join(c.upper() if i % 2 else c.lower() for i, c in enumerate(base))       # a spelling no member has
+        doc = with_part(raw, rels_name, rels.replace(target, "../media/" + odd).encode("utf-8"))
+        doc = with_part(doc, "ppt/media/" + base, jpeg(640, 480))
+        doc = with_part(doc, "ppt/media/" + base.capitalize(), jpeg(320, 200))
+        doc = with_part(doc, "ppt/media/" + base.swapcase(), jpeg(111, 222))
+        # ... enough spellings that "the first / the last one in set order" differs between two hash seeds
+        letters = [i for i, c in enumerate(base) if c.isalpha()]
+        for k, i in enumerate(letters[:6]):
+            spelling = base[:i].lower() + base[i].upper() + base[i + 1:].lower()
+            if spelling not in (base, base.capitalize(), base.swapcase(), odd):
+                doc = with_part(doc, "ppt/media/" + spelling, jpeg(50 + k, 70 + k))
+        out["c06_case_variant_members.pptx"] = doc
+    except Exception:  # noqa -- fixture missing / shaped differently: the corpus simply lacks this document
+        pass
     for fixture, tag in (("modern_ms/mwe.xlsx", "xlsx"), ("modern_ms/headings.docx", "docx"), ("modern_ms/pptx_table.pptx", "pptx")):
         try:
             raw = open(os.path.join(res, fixture), "rb").read()
@@ -364,8 +446,18 @@ def write_synth(repo):
 
 # --------------------------------------------------------------------------- corpus run --
 def start(seed, repo, synth_dir, order, scope):
+    """A fresh process; the processes of one run also differ in what is NOT an input of extraction: hash seed, corpus order,
+    locale / default text encoding, time zone, terminal size, working directory, unrelated environment variables."""
+    env = dict(os.environ, PYTHONHASHSEED=str(seed))
+    cwd = None
+    if order == "rev":
+        env.update(LC_ALL="C", LANG="C", PYTHONUTF8="0", PYTHONCOERCECLOCALE="0", TZ="Pacific/Kiritimati", COLUMNS="43", LINES="11",
+                   PYTHONIOENCODING="ascii:backslashreplace", C06_UNRELATED="1", HOME="/nonexistent-c06-home")
+        cwd = synth_dir if os.path.isdir(synth_dir) else None
+    else:
+        env.update(LC_ALL="C.UTF-8", LANG="C.UTF-8", TZ="UTC")
     return subprocess.Popen([sys.executable, "-c", WORKER, repo, synth_dir, order, scope], stdout=subprocess.PIPE, stderr=subprocess.PIPE, text=True,
-                            env=dict(os.environ, PYTHONHASHSEED=str(seed)))
+                            env=env, cwd=cwd)
 
 
 def collect(p):
@@ -401,6 +493,42 @@ def mismatches(repo, scope="all", seeds=(1, 2)):
     """[(file, kind, detail)] over the corpus: fresh processes with different hash seeds (and start times), opposite corpus
     order; per process: repeated extraction, extraction without a path, observers interleaved with to_json()."""
     synth = write_synth(repo)
+    # one check asks for the same corpus run once per violated obligation: keep the observations of a run for a few minutes,
+    # keyed by the exact source text of the tree under test
+    import time
+    h = hashlib.sha256()
+    for dp, _dn, fs in sorted(os.walk(os.path.join(repo, "sharepoint2text"))):
+        if os.sep + "tests" in dp:
+            continue
+        for fn in sorted(fs):
+            if fn.endswith(".py"):
+                with open(os.path.join(dp, fn), "rb") as fh:
+                    h.update(fn.encode() + b"\0" + fh.read())
+    with open(os.path.abspath(__file__), "rb") as fh:
+        h.update(fh.read())
+    cache = os.path.join(SYNTH_DIR, f"run_{h.hexdigest()[:20]}_{scope}_{'-'.join(map(str, seeds))}.json")
+    try:
+        if time.time() - os.path.getmtime(cache) < 600:
+            got = json.load(open(cache))
+            return [tuple(x) for x in got[0]], got[1]
+    except (OSError, ValueError):
+        pass
+    r = _mismatches_uncached(repo, synth, scope, seeds)
+    if r is not None:
+        try:
+            tmp = cache + f".{os.getpid()}.tmp"
+            with open(tmp, "w") as fh:
+                json.dump([r[0], r[1]], fh)
+            os.replace(tmp, cache)
+            for old in os.listdir(SYNTH_DIR):
+                if old.startswith("run_") and time.time() - os.path.getmtime(os.path.join(SYNTH_DIR, old)) > 3600:
+                    os.unlink(os.path.join(SYNTH_DIR, old))
+        except OSError:
+            pass
+    return r
+
+
+def _mismatches_uncached(repo, synth, scope, seeds):
     procs = [start(s, repo, synth, "fwd" if i % 2 == 0 else "rev", scope) for i, s in enumerate(seeds)]
     runs = [collect(p) for p in procs]
     if not all(runs):
@@ -415,6 +543,8 @@ def mismatches(repo, scope="all", seeds=(1, 2)):
             out.append((f, "input buffer modified", ""))
         if not all(r.get(f, {}).get("observer_stable", True) for r in runs):
             out.append((f, "to_json() changed by observers (units / images / streams read)", ""))
+        for h in sorted({h for r in runs for h in r.get(f, {}).get("history", [])}):
+            out.append((f, h, ""))
         if not all(r.get(f, {}).get("repeat_stable", True) for r in runs):
             out.append((f, "to_json() differs between two extractions in one process (second one with the input cursor at offset 7)", ""))
         for rb in runs[1:]:
@@ -538,6 +668,176 @@ def _report(new, n, note=""):
             "observed": f"{kind} {detail}", "all_new_mismatches": new[:10]}
 
 
+FRAME_WORKER = r'''
+import sys, io, json, glob, hashlib, logging, dataclasses, os, copy, time, inspect
+logging.disable(logging.CRITICAL)
+repo, synth_dir, cls_name, meth = sys.argv[1:5]
+sys.path.insert(0, repo)
+import sharepoint2text
+
+def snap(o, depth=0, seen=None):
+    """Everything reachable from an object except read positions of streams (instance __dict__ entries beyond the declared fields included)."""
+    seen = seen if seen is not None else set()
+    if depth > 12:
+        return "..."
+    if isinstance(o, io.BytesIO):
+        return ["BytesIO", hashlib.sha256(o.getvalue()).hexdigest()]
+    if isinstance(o, (str, bytes, int, float, bool, type(None))):
+        return repr(o)
+    if id(o) in seen:
+        return "<cycle>"
+    seen = seen | {id(o)}
+    if isinstance(o, (list, tuple)):
+        return [type(o).__name__] + [snap(x, depth + 1, seen) for x in o]
+    if isinstance(o, dict):
+        return ["dict"] + [[snap(k, depth + 1, seen), snap(v, depth + 1, seen)] for k, v in o.items()]
+    if isinstance(o, (set, frozenset)):
+        return ["set"] + sorted(json.dumps(snap(x, depth + 1, seen)) for x in o)
+    d = getattr(o, "__dict__", None)
+    if isinstance(d, dict):
+        # plain data kept on the class (counters, shared containers) is state every instance sees
+        shared = [[k, snap(v, depth + 1, seen)] for k, v in vars(type(o)).items()
+                  if not k.startswith("__") and isinstance(v, (int, float, str, bytes, list, dict, set, tuple, type(None)))]
+        return [type(o).__name__] + [[k, snap(v, depth + 1, seen)] for k, v in d.items()] + ([["<class>", shared]] if shared else [])
+    return repr(type(o))
+
+def instances(o, out, seen, depth=0):
+    if id(o) in seen or depth > 8 or isinstance(o, (str, bytes, int, float, bool, type(None), io.BytesIO)):
+        return
+    seen.add(id(o))
+    if type(o).__name__ == cls_name:
+        out.append(o)
+    if isinstance(o, (list, tuple, set, frozenset)):
+        for x in o:
+            instances(x, out, seen, depth + 1)
+    elif isinstance(o, dict):
+        for x in o.values():
+            instances(x, out, seen, depth + 1)
+    elif isinstance(getattr(o, "__dict__", None), dict):
+        for x in list(vars(o).values()):
+            instances(x, out, seen, depth + 1)
+
+def variants(o):
+    """The instance itself and small perturbations the extractors do not necessarily produce but the class admits:
+    ragged / empty nested lists, emptied and duplicated list fields, None / empty optional strings."""
+    yield "as extracted", o
+    for k, v in list(vars(o).items()):
+        if isinstance(v, list) and v:
+            if all(isinstance(r, list) for r in v):
+                c = copy.deepcopy(o); rows = getattr(c, k)
+                longest = max(range(len(rows)), key=lambda i: len(rows[i]))
+                for i, r in enumerate(rows):
+                    if i != longest and r:
+                        r.pop()
+                        break
+                else:
+                    rows.append([])
+                yield f"{k}: rows of different lengths", c
+                c = copy.deepcopy(o); getattr(c, k).append([])
+                yield f"{k}: an empty row added", c
+            c = copy.deepcopy(o); setattr(c, k, [])
+            yield f"{k} emptied", c
+            c = copy.deepcopy(o); lst = getattr(c, k); lst.extend(copy.deepcopy(lst[:2])); lst.reverse()
+            yield f"{k}: elements repeated, reversed", c
+        elif isinstance(v, str) and v:
+            c = copy.deepcopy(o); setattr(c, k, "")
+            yield f"{k} = empty string", c
+
+def unit_results(f):
+    data = open(f, "rb").read()
+    return list(sharepoint2text.get_extractor(f)(io.BytesIO(data), f))
+
+files = sorted(glob.glob(synth_dir + "/*")) + [f for f in sorted(glob.glob(repo + "/sharepoint2text/tests/resources/*/*"), key=os.path.getsize) if "password" not in f]
+files = [f for f in files if os.path.isfile(f) and sharepoint2text.is_supported_file(f)]
+t0, tried, n_inst = time.time(), 0, 0
+found = None
+for f in files:
+    if time.time() - t0 > 150 or n_inst >= 40:
+        break
+    try:
+        res = unit_results(f)
+    except Exception:
+        continue
+    got = []
+    instances(res, got, set())
+    # objects handed out by listings (units, images, tables) are instances as well
+    for r in res:
+        for name in ("iterate_units", "iterate_images", "iterate_tables"):
+            try:
+                instances(list(getattr(r, name)()), got, set())
+            except Exception:
+                pass
+    for o in got[:6]:
+        n_inst += 1
+        for what, v in variants(o):
+            m = getattr(v, meth, None)
+            if m is None:
+                continue
+            before = snap(v)
+            try:
+                is_prop = isinstance(inspect.getattr_static(type(v), meth, None), property)
+                if not is_prop:
+                    if [p for p in list(inspect.signature(m).parameters.values()) if p.default is p.empty and p.kind in (p.POSITIONAL_ONLY, p.POSITIONAL_OR_KEYWORD)]:
+                        continue
+                    r1 = m()
+                    if inspect.isgenerator(r1) or hasattr(r1, "__next__"):
+                        r1 = list(r1)
+                    r2 = m()
+                    if inspect.isgenerator(r2) or hasattr(r2, "__next__"):
+                        r2 = list(r2)
+            except Exception:
+                continue
+            tried += 1
+            after = snap(v)
+            if before != after:
+                name = f[len(repo) + 1:] if f.startswith(repo + "/") else "synthetic/" + os.path.basename(f)
+                found = {"file": name, "instance": what, "class": cls_name, "method": meth,
+                         "before": json.dumps(before)[:300], "after": json.dumps(after)[:300]}
+                break
+        if found:
+            break
+    if found:
+        break
+print(json.dumps({"found": found, "tried": tried, "instances": n_inst}))
+'''
+
+
+def frame_search(repo, hint):
+    """Function-level search for an observer of a result class that modifies what it observes: instances of the class are taken
+    from the results of the corpus (and small perturbations of them: ragged / empty / repeated list fields), the method is called
+    twice, everything reachable from the instance (stream positions excepted) is compared before / after."""
+    q = hint.get("function") or ""
+    if "." not in q:
+        return None
+    cls_name, meth = q.split(".")[-2], q.split(".")[-1]
+    synth = write_synth(repo)
+    try:
+        p = subprocess.run([sys.executable, "-c", FRAME_WORKER, repo, synth, cls_name, meth], capture_output=True, text=True, timeout=400,
+                           env=dict(os.environ, PYTHONHASHSEED="1"))
+        lines = [l for l in p.stdout.splitlines() if l.startswith("{")]
+        got = json.loads(lines[-1]) if lines else {}
+    except (subprocess.TimeoutExpired, ValueError, OSError):
+        return None
+    f = got.get("found")
+    if not f:
+        return None
+    return {"reproduced": True, "target": f"{cls_name}.{meth}",
+            "inputs": {"file": f["file"], "instance": f"{cls_name} object from the extraction result ({f['instance']})", "call": f"{meth}() twice",
+                       "synthetic_generator": "replay/C06.py::synth_corpus" if f["file"].startswith("synthetic/") else None},
+            "expected": "everything reachable from the object is the same before and after the call (stream positions excepted)",
+            "observed": f"before: {f['before']} -- after: {f['after']}"}
+
+
+def recorded_signatures():
+    try:
+        root = os.path.dirname(os.path.dirname(os.path.abspath(__file__)))
+        kf = json.load(open(os.path.join(root, "known_findings.json"))).get("findings", [])
+        return [{"id": f["id"], "detail": list(f["mismatch"]["detail"]), "kind_contains": f["mismatch"]["kind_contains"]}
+                for f in kf if f.get("property") == "C06" and isinstance(f.get("mismatch"), dict)]
+    except (OSError, ValueError, KeyError, TypeError):
+        return []
+
+
 def find(req):
     repo = os.environ.get("VERIF_REPO", "/repo")
     hint = req.get("extra") or {}
@@ -567,10 +867,21 @@ def find(req):
     mm, n = r
     known = {tuple(x) for x in (req.get("known_mismatches") or [])}
     new = [m for m in mm if (m[0], m[2]) not in known and (m[0].split("/")[-1], m[2]) not in known]
+    # mismatches recorded as known findings (known_findings.json, property C06, field "mismatch": where the two runs differ and
+    # what kind of difference it is) are listed separately: they are reported once, under their finding, and never hide new ones
+    recorded = []
+    for sig in recorded_signatures():
+        hit = [m for m in new if m[2] in sig["detail"] and sig["kind_contains"] in m[1]]
+        recorded += [list(m) + [sig["id"]] for m in hit]
+        new = [m for m in new if m not in hit]
     if req.get("list_all"):
-        return {"reproduced": bool(mm), "mismatches": mm, "fixtures": n}
+        return {"reproduced": bool(new), "mismatches": new, "recorded": recorded, "fixtures": n}
     if new:
         return _report(new, n)
+    if kind == "frame" and not req.get("list_all"):
+        r = frame_search(repo, hint)
+        if r:
+            return r
     return {"reproduced": False, "note": f"{n} documents: no unrecorded mismatch ({len(mm)} recorded)", "recorded_still_failing": len(mm)}
 
 
